@@ -151,6 +151,9 @@ fn part_a_variant(ctx: &Ctx, head: &mut Report, naming: &'static str) {
                     match res {
                         Ok((n, transitions, problems)) => {
                             r.add_count("derivations_checked", n as u64);
+                            if r.samples.is_empty() && n > 1 {
+                                r.sample(json!({"rule_level": {"query": sql, "setting": format!("pu={pname} sd={sd} strategy={sname}"), "derivations_enumerated_by_the_real_selector": n, "label_transitions_seen": transitions.iter().take(6).collect::<Vec<_>>()}}));
+                            }
                             r.add_count("transitions", n as u64);
                             if n > 0 {
                                 r.distinct_nontrivial += 1;
@@ -346,6 +349,9 @@ fn part_b(ctx: &Ctx, head: &mut Report) {
                                 continue;
                             }
                             r.distinct_nontrivial += 1;
+                            if r.samples.is_empty() {
+                                r.sample(json!({"flow_test": {"query": p.sql, "synthetic_data": p.sd, "naming": p.naming, "database": show_db(db), "removed_unit": u, "cell": {"group": k.0, "column": if k.1 == usize::MAX { json!("(row presence)") } else { json!(a0.cols.get(k.1)) }}, "on_D": x.map(|c| c.show()), "on_D_minus_u": y.map(|c| c.show()), "values_under_constant_scripts": moved.iter().map(|m| m.get(k).map(|c| c.show())).collect::<Vec<_>>()}}));
+                            }
                             // protected rows influence this cell: it has to respond to the random source
                             let responds = moved.iter().any(|m| match (m.get(k), x) {
                                 (Some(a), Some(b)) => !a.close(b, 1e-12),
@@ -381,7 +387,6 @@ pub fn run(ctx: &Ctx) -> Report {
     if ctx.replay.as_ref().map_or(true, |x| x.starts_with("flow") || x.starts_with('~')) {
         part_b(ctx, &mut r);
     }
-    r.sample(json!({"rule_level": "reduce(PUP) -> DP ; map(DP) -> DP ; map(Pub) -> Pub ; table() -> PUP", "flow": {"query": "SELECT city, sum(age) AS s FROM users GROUP BY city", "D": {"users": ["(1,18,'A')", "(2,20,'A')"]}, "removed_unit": 1, "cell": "s of group A differs between D and D minus u, and moves under the constant scripts"}}));
     r.rule = "(a) every derivation the real setter -> eliminator -> selector produce for every E-sql relation (quick: every second) x {all protected, users only} x synthetic data {none, full, partial} x {Hard, Soft}: rule inputs = children's labels; a Public / Published node has no Private / PUP descendant without a DP node in between; DP only on a Reduce over PUP; a protected table is never Public / Published / DP; SD never over Private / PUP. states = distinct (node kind, child labels -> label) transitions observed. (b) flow test: DP aggregation queries and plain queries x synthetic data {none, full, partial map} x ALL databases x EVERY unit u: the returned relation is materialised on D and D minus u with the noise-free script and on D with the constant scripts 0.5 / 0.9 / 0.1; a cell (or row presence) that differs between D and D minus u must differ on D under some constant script. non-trivial = cells that follow protected rows".into();
     r.assumptions = vec!["(b) knows nothing about how the IR spells its mechanisms; how much noise is C01 / C03 / C04".into(), "synthetic replacements are independent fixed tables of the test database".into()];
     r
